@@ -65,7 +65,10 @@ def generate(tier, seed):
     for i in range(n):
         r = rng.random()
         fam = "poly1" if r < 0.5 else ("poly2" if r < 0.85 else "bag1")
-        spec = getattr(P, "random_" + fam)(rng)
+        gen = "random_poly2_thick" if fam == "poly2" and rng.random() < 0.5 else "random_" + fam
+        spec = getattr(P, gen)(rng)
+        if fam == "poly2" and rng.random() < 0.5:
+            spec["perm"] = [1, 0]
         offeq = bool(rng.random() < (0.15 if tier == "quick" else 0.25))
         cfg = {"M": int(rng.choice([20, 25, 30, 40])), "N": int(rng.choice([5, 7])),
                "errTol": float(rng.choice([1e-2, 1e-3, 3e-4])),
@@ -479,8 +482,14 @@ def run_case(case):
                         ospec["particles"] = spec["particles"]
                         omodel = P.ZooModel(opot, MG.particles_for(opot, ospec))
                     ob = MG.build(ospec, cfg, setup=False)
-                    manager.registerModel(ob["model"])
-                    manager.setupThermodynamicsHydrodynamics(ob["phaseInfo"], ob["scales"])
+                    try:
+                        manager.registerModel(ob["model"])
+                        manager.setupThermodynamicsHydrodynamics(ob["phaseInfo"], ob["scales"])
+                    except Exception as exc:
+                        # the other benchmark point may legitimately be rejected; what
+                        # matters is that this point, set up again, gives the same result
+                        obs.setdefault("op_errors", []).append(
+                            f"resetup(other point rejected): {repr(exc)[:80]}")
                     manager.registerModel(b["model"])
                     manager.setupThermodynamicsHydrodynamics(b["phaseInfo"], b["scales"])
             except Exception as exc:
